@@ -1301,67 +1301,35 @@ where
 
             select3(&mut notification, &mut timeout, &mut session_removed).await;
 
-            let now = Instant::now();
-
-            // First remove all expired or no-longer valid subscriptions
-
-            let mut removed_any = false;
-            loop {
-                let removed = self
-                    .state
-                    .subscriptions
-                    .remove(&self.subscriptions_buffers, |sub| {
-                        if sub.is_expired(now) {
-                            return Some("expired");
-                        }
-
-                        matter.with_state(|state| {
-                            if state.fabrics.get(sub.ids().fab_idx).is_none() {
-                                return Some("fabric removed");
-                            }
-
-                            // A subscription is NOT dropped merely because the
-                            // session it was accepted on is gone (eviction,
-                            // peer-side re-handshake, unreachable peer, a received
-                            // Close, ...): reports route by `(fabric, node)` and a
-                            // fresh session is established on demand. A session
-                            // ending is a transport event, not a subscription
-                            // teardown. It ends only through its own lifecycle —
-                            // `max_int` liveness timeout (handled above as
-                            // "expired"), or the subscriber answering a report with
-                            // a non-success status (handled in the report loop, which
-                            // then purges the persisted record).
-                            None
-                        })
-                    });
-
-                removed_any |= removed;
-
-                if !removed {
-                    break;
-                }
-            }
-
-            // Keep the persisted set an exact mirror of the (now-smaller) table:
-            // any dropped subscription's record is removed so it will not be
-            // resumed on the next reboot.
-            if removed_any {
-                self.persist_subscriptions();
-            }
-
-            // Now report while there are subscriptions which are due for reporting
-
-            let event_numbers_watermark = self.state.events.watermark();
-
             // Track whether any subscription left the table during reporting (the
             // subscriber answered a report with a non-success status, i.e. a
             // deliberate unsubscribe), so its persisted record can be purged.
             let mut dropped_any = false;
 
+            // Report while there are subscriptions which are due for reporting.
+            //
+            // A report can take long (retransmissions, an on-demand session
+            // establishment, a peer that acknowledges but does not answer), so every
+            // report takes its own reading of the clock and is preceded by its own
+            // sweep of the expired subscriptions: a subscription must neither be
+            // reported on after it has expired meanwhile, nor be stamped with an
+            // instant that lies before the moment its report was actually begun
+            // (the minimum interval is measured from that stamp).
             loop {
+                let now = Instant::now();
+
+                // First remove all expired or no-longer valid subscriptions.
+                //
+                // Keep the persisted set an exact mirror of the (now-smaller) table:
+                // any dropped subscription's record is removed so it will not be
+                // resumed on the next reboot.
+                if self.remove_ended_subscriptions(matter, now) {
+                    self.persist_subscriptions();
+                }
+
                 let Some(mut rctx) = self.state.subscriptions.report(
                     now,
-                    event_numbers_watermark,
+                    self.state.events.watermark(),
                     &self.subscriptions_buffers,
                 ) else {
                     break;
@@ -1422,6 +1390,50 @@ where
             // subscription, so the table does not accumulate stale promoted wildcards.
             self.state.subscriptions.purge_reported_changes();
         }
+    }
+
+    /// Remove the subscriptions that have ended as of `now`: the expired ones and
+    /// the ones whose fabric is gone. Returns whether anything was removed.
+    fn remove_ended_subscriptions(&self, matter: &Matter<'_>, now: Instant) -> bool {
+        let mut removed_any = false;
+
+        loop {
+            let removed = self
+                .state
+                .subscriptions
+                .remove(&self.subscriptions_buffers, |sub| {
+                    if sub.is_expired(now) {
+                        return Some("expired");
+                    }
+
+                    matter.with_state(|state| {
+                        if state.fabrics.get(sub.ids().fab_idx).is_none() {
+                            return Some("fabric removed");
+                        }
+
+                        // A subscription is NOT dropped merely because the
+                        // session it was accepted on is gone (eviction,
+                        // peer-side re-handshake, unreachable peer, a received
+                        // Close, ...): reports route by `(fabric, node)` and a
+                        // fresh session is established on demand. A session
+                        // ending is a transport event, not a subscription
+                        // teardown. It ends only through its own lifecycle —
+                        // `max_int` liveness timeout (handled above as
+                        // "expired"), or the subscriber answering a report with
+                        // a non-success status (handled in the report loop, which
+                        // then purges the persisted record).
+                        None
+                    })
+                });
+
+            removed_any |= removed;
+
+            if !removed {
+                break;
+            }
+        }
+
+        removed_any
     }
 
     /// Process one valid subscription, reporting the data to the peer.
